@@ -122,6 +122,8 @@ impl Property for C06 {
             Ones,
             Z,
             X,
+            /// written `(7/0)`: the row cannot be evaluated
+            Fail,
         }
         let mut grid: Vec<Vec<Cell>> = vec![];
         for r in 0..nrows {
@@ -159,6 +161,17 @@ impl Property for C06 {
             }
             grid.push(row);
         }
+        // one case in five: one row (not the last) holds `(7/0)` in a column other than the first. It is an error item
+        // for which nothing is sent; the caller goes on, and the rows after it are bound like any other (nothing of the
+        // half-evaluated row may be left over)
+        let mut fail_row = None;
+        if cols.len() >= 2 && nrows >= 2 && ch.chance(1, 5) {
+            let r = ch.upto(nrows - 1);
+            let j = 1 + ch.upto(cols.len() - 1);
+            grid[r][j] = Cell::Fail;
+            fail_row = Some(r);
+            out.class("row-that-cannot-be-evaluated");
+        }
         if (1..nrows).any(|r| (0..cols.len()).any(|j| matches!((grid[r - 1][j], grid[r][j]), (Cell::Z, Cell::Ones) | (Cell::Ones, Cell::Z)))) {
             out.class("Z-next-to-all-ones");
         }
@@ -171,6 +184,7 @@ impl Property for C06 {
                         Cell::Ones => Entry::Paren(Expr::un(UnOp::BitNot, Expr::lit(0))),
                         Cell::Z => Entry::Z(true),
                         Cell::X => Entry::X(true),
+                        Cell::Fail => Entry::Paren(Expr::bin(BinOp::Div, Expr::lit(7), Expr::lit(0))),
                     })
                     .collect(),
             ));
@@ -242,7 +256,25 @@ impl Property for C06 {
         let mut after_error = false;
         for r in 0..nrows {
             // loop-free rows without C or X: item r is answered by call r + 1 (call 0 = constructor)
-            if !matches!(real.items.get(r), None | Some(RealItem::Panic(_))) && real.log_len_before.get(r + 1).copied() != Some(r + 2) {
+            // (the planted row that cannot be evaluated is an error item without a call)
+            let before = real.log_len_before.get(r).copied().unwrap_or(0);
+            if fail_row == Some(r) {
+                match real.items.get(r) {
+                    Some(RealItem::RuntimeErr(_)) if real.log_len_before.get(r + 1).copied() == Some(before) => {
+                        after_error = true;
+                        continue;
+                    }
+                    Some(RealItem::Panic(p)) => {
+                        out.fail(p.key(), format!("row {r} panicked: {p}"));
+                        return out;
+                    }
+                    _ => {
+                        out.discard("failing-row-not-an-error-item-without-call");
+                        return out;
+                    }
+                }
+            }
+            if !matches!(real.items.get(r), None | Some(RealItem::Panic(_))) && (before == 0 || real.log_len_before.get(r + 1).copied() != Some(before + 1)) {
                 out.discard("call-protocol-broken");
                 return out;
             }
@@ -251,12 +283,12 @@ impl Property for C06 {
                     out.class_if(after_error, "row-after-error-item");
                     row
                 }
-                Some(RealItem::DriverErr(_)) if spec.fail_at == Some(r + 1) => {
+                Some(RealItem::DriverErr(_)) if spec.fail_at == Some(before) => {
                     after_error = true;
                     continue;
                 }
                 // a virtual signal read Z/X in the answer to this row's call (C14)
-                Some(RealItem::RuntimeErr(_)) if spec.zx > 0 && real.log[r + 1].answer.iter().any(|a| !matches!(a.1, OutVal::Val(_))) => {
+                Some(RealItem::RuntimeErr(_)) if spec.zx > 0 && real.log[before].answer.iter().any(|a| !matches!(a.1, OutVal::Val(_))) => {
                     after_error = true;
                     continue;
                 }
@@ -277,7 +309,7 @@ impl Property for C06 {
                     Some(Cell::Num(v)) => (s.name.clone(), InVal::Val(v as i64), true),
                     Some(Cell::Ones) => (s.name.clone(), InVal::Val(reduce(-1, s.bits)), true),
                     Some(Cell::Z) => (s.name.clone(), InVal::Z, true),
-                    Some(Cell::X) => unreachable!("no X in input columns"),
+                    Some(Cell::X) | Some(Cell::Fail) => unreachable!("no X in input columns, and the failing row is skipped"),
                     None => (s.name.clone(), s.default().unwrap(), false),
                 })
                 .collect();
@@ -285,7 +317,7 @@ impl Property for C06 {
                 out.fail("c06:input-count", format!("row {r}: {} input entries for {} input-capable signals", row.inputs.len(), want_in.len()));
                 return out;
             }
-            let prev = &real.log[r].inputs; // previous vector handed to the driver (log[0] = constructor)
+            let prev = &real.log[before - 1].inputs; // previous vector handed to the driver (log[0] = constructor)
             for (k, ((n, v, in_header), (gn, gv, gc))) in want_in.iter().zip(&row.inputs).enumerate() {
                 if n != gn || v != gv {
                     out.fail(
@@ -323,6 +355,7 @@ impl Property for C06 {
                         Some(Cell::Ones) => ExpVal::Val(reduce(-1, s.bits)),
                         Some(Cell::Z) => ExpVal::Z,
                         Some(Cell::X) | None => ExpVal::X,
+                        Some(Cell::Fail) => unreachable!(),
                     };
                     (s.name.clone(), e)
                 })
@@ -350,6 +383,7 @@ impl Property for C06 {
                     Some(Cell::Ones) => ExpVal::Val(-1),
                     Some(Cell::Z) => ExpVal::Z,
                     Some(Cell::X) | None => ExpVal::X,
+                    Some(Cell::Fail) => unreachable!(),
                 };
                 let g = row.outputs[want_out.len()..].iter().find(|o| o.name == *n);
                 if g.map(|g| g.expected) != Some(e) {
